@@ -346,3 +346,5 @@ for _pid in ("C01", "C03", "C07", "C08"):
     PROPS[_pid].setdefault("tie_modules", []).append("LispModel.Tie.EvalArms")
 for _pid in ("C07", "C10"):
     PROPS[_pid].setdefault("tie_modules", []).append("LispModel.Tie.Waits")
+for _pid in ("C08", "C18"):
+    PROPS[_pid].setdefault("tie_modules", []).append("LispModel.Tie.Reentries")
